@@ -68,7 +68,42 @@ TSelect == /\ IsEvent("Select")
                    \* anti-vacuity: the listed nonces are a cycle under the definition they were found in
                    /\ Accept(GraphOf([variant |-> Ev.cycle_of, K |-> Ev.K, N |-> Ev.N, ends |-> Ev.ends_by[Ev.cycle_of]]), Ev.nonces)
 
-TNext == TVerify \/ TPack \/ TSelect
+\* pow::verify_size(header): the header was built by the harness for a plan of MC_CuckooSize
+\* (chain type, real header version of its height, edge bits, nonce list of the plan's length class
+\* and shape). The verdict must be VerifySizeVerdict on my endpoints of the listed nonces, with the
+\* required length taken from the chain type; the plan's expectation must be that same verdict
+\* (the case really is what the plan says) and the shape must be what its name says.
+EndsListed(e, var) == {e.ends_by[var][j][1] : j \in 1..Len(e.ends_by[var])}
+TVerifySize ==
+    /\ IsEvent("VerifySize")
+    /\ UNCHANGED <<g, path, closed>>
+    /\ Ev.chain \in Chains
+    /\ Ev.P = ProofSize(Ev.chain)            \* the code's global::proofsize() is the spec's constant
+    /\ Ev.lc \in LenClasses
+    /\ Ev.L = LenClass(Ev.lc, Ev.P)
+    /\ Len(Ev.nonces) = Ev.L
+    /\ Ev.gof \in Variants
+    /\ LET sv == SelectVariant(Ev.chain, Ev.version, Ev.eb)
+           GB(var) == GraphOf([variant |-> var, K |-> Ev.P, N |-> Ev.N, ends |-> Ev.ends_by[var]])
+           want == VerifySizeVerdict(Ev.chain, Ev.version, Ev.eb, Ev.P, GB, Ev.nonces)
+           S == RangeOf(Ev.nonces)
+       IN /\ sv = Ev.sv
+          /\ \A var \in {sv, Ev.gof} \ {"none"} :
+                /\ EndsListed(Ev, var) = InRangeNonces(Ev)
+                /\ \A j \in 1..Len(Ev.ends_by[var]) :
+                      /\ Ev.ends_by[var][j][2] \in 0..NodeCount(var, Ev.N) - 1
+                      /\ Ev.ends_by[var][j][3] \in 0..NodeCount(var, Ev.N) - 1
+          /\ Ev.expect = want
+          /\ Ev.verdict = want
+          /\ Ev.shape \in {"cycle", "unsorted"} => IsCycleAnyLen(GB(Ev.gof), S) /\ Cardinality(S) = Ev.L
+          /\ Ev.shape = "cycle" => Ascending(Ev.nonces)
+          /\ Ev.shape = "unsorted" => ~Ascending(Ev.nonces)
+          /\ Ev.shape \in {"open", "two_cycles", "garbage"} => ~IsCycleAnyLen(GB(Ev.gof), S)
+          /\ Ev.shape = "two_cycles" =>
+                /\ \A j \in JunctionsOf(GB(Ev.gof), S) : GoodJunction(GB(Ev.gof), S, j)
+                /\ ~Connected(GB(Ev.gof), S)
+
+TNext == TVerify \/ TPack \/ TSelect \/ TVerifySize
 TSpec == TInit /\ [][TNext]_tvars
 
 Accepted == LET d == TLCGet("stats").diameter IN
